@@ -11,6 +11,8 @@ LEAN_MODULE = "NanoVerif.Props.C17"
 OBLIGATIONS = [
     "NanoVerif.C17.accept_sound",
     "NanoVerif.C17.duplicate_name_rejected",
+    "NanoVerif.C17.masters_agree",
+    "NanoVerif.C17.extra_drawing_rejected",
     "NanoVerif.C15.conflict_is_error",
     "NanoVerif.C15.ok_no_conflict",
     "NanoVerif.C14.too_big_rejected",
@@ -70,7 +72,23 @@ def one_case(args):
         bad = [p for p in paths if str(p.relative_to(srcdir)) not in valid]
         k = min(pos, len(names))
         ordered = names[:k] + bad + names[k:]
-        if kind == "masters-disagree":
+        if kind in ("masters-disagree-extra", "masters-disagree-other"):
+            # the usual layout: one directory per master holding same-named drawings.  A LATER master has a drawing the first lacks / a
+            # differently named one: either way one master's drawing would be silently dropped
+            names2 = ["emoji_u1f600.svg", "emoji_u1f601.svg"]
+            bold_names = list(names2)
+            if with_defect:
+                bold_names = names2 + ["emoji_u1f602.svg"] if kind.endswith("extra") else ["emoji_u1f600.svg", "emoji_u1f602.svg"]
+            # one colour everywhere: the masters are interpolation-compatible, nothing downstream objects to the extra drawing
+            cli.write_svgs(d / "regular", {n_: cli.simple_svg(i, color="#CC0000") for i, n_ in enumerate(names2)})
+            cli.write_svgs(d / "bold", {n_: cli.simple_svg(i, color="#CC0000") for i, n_ in enumerate(bold_names)})
+            (d / "vf.toml").write_text(
+                'family = "V"\noutput_file = "V.ttf"\ncolor_format = "glyf_colr_1"\n[axis.wght]\nname = "Weight"\ndefault = 400\n'
+                '[master.regular]\nstyle_name = "Regular"\nsrcs = [' + ", ".join(f'"regular/{n_}"' for n_ in names2) + ']\n[master.regular.position]\nwght = 400\n'
+                '[master.bold]\nstyle_name = "Bold"\nsrcs = [' + ", ".join(f'"bold/{n_}"' for n_ in bold_names) + ']\n[master.bold.position]\nwght = 700\n')
+            rc, out = cli.nanoemoji(["--build_dir", d / "build", d / "vf.toml"], d)
+            outfile = d / "build" / "V.ttf"
+        elif kind == "masters-disagree":
             (d / "vf.toml").write_text(
                 'family = "V"\noutput_file = "V.ttf"\ncolor_format = "glyf_colr_1"\n[axis.wght]\nname = "Weight"\ndefault = 400\n'
                 '[master.regular]\nstyle_name = "Regular"\nsrcs = ["src/emoji_u1f600.svg", "src/emoji_u1f601.svg"]\n[master.regular.position]\nwght = 400\n'
@@ -89,7 +107,7 @@ def one_case(args):
         shutil.rmtree(d, ignore_errors=True)
 
 
-KINDS = ["dup-glyph-name", "dup-file-name", "unparsable", "bad-colour", "bad-colour-7", "bad-colour-9", "bad-spread", "palette-conflict", "oversize-bitmap", "masters-disagree"]
+KINDS = ["dup-glyph-name", "dup-file-name", "unparsable", "bad-colour", "bad-colour-7", "bad-colour-9", "bad-spread", "palette-conflict", "oversize-bitmap", "masters-disagree", "masters-disagree-extra", "masters-disagree-other"]
 
 
 def fmt_for(kind, rng):
@@ -146,6 +164,68 @@ def suite_accept_model(ctx, res, n):
             res.add_tie_break("_generate_color_font input validation vs Model acceptInputs", {"inputs": [(a, list(b)) for a, b in ins]}, m, r)
 
 
+def suite_masters_model(ctx, res, n):
+    """Tie for Model `mastersOk` (theorems masters_agree, extra_drawing_rejected): the real config.load on configurations whose masters list
+    drawings with equal / missing / extra / repeated names (one directory per master, as projects are laid out) rejects exactly when the model does"""
+    from nanoemoji import config as nconfig
+
+    rng = ctx.rng
+    ops, reals, metas = [], [], []
+    tmp = common.scratch_dir("c17m")
+    try:
+        pool = ["a.svg", "b.svg", "c.svg", "emoji_u1f600.svg", "d e.svg"]
+        for k in range(n):
+            base = rng.sample(pool, rng.randint(1, 3))
+            nm = rng.randint(1, 4)
+            masters = []
+            for m in range(nm):
+                names = list(base)
+                r = rng.random()
+                if m > 0 and r < 0.2:
+                    names.append(rng.choice([p_ for p_ in pool if p_ not in names] or ["z.svg"]))      # extra drawing in a later master
+                elif m > 0 and r < 0.35 and len(names) > 1:
+                    names.remove(rng.choice(names))                                                       # missing drawing
+                elif r < 0.45:
+                    names.append(rng.choice(names))                                                       # the same name twice (second directory)
+                elif m > 0 and r < 0.55:
+                    names[rng.randrange(len(names))] = "other.svg"                                        # same count, other name
+                rng.shuffle(names)
+                masters.append(names)
+            d = tmp / f"k{k}"
+            lines = ['family = "V"', 'output_file = "V.ttf"', 'color_format = "glyf_colr_1"', "[axis.wght]", 'name = "Weight"', "default = 400"]
+            for m, names in enumerate(masters):
+                paths, seen = [], {}
+                for nm_ in names:
+                    sub = f"m{m}" if nm_ not in seen else f"m{m}_again"
+                    seen[nm_] = True
+                    (d / sub).mkdir(parents=True, exist_ok=True)
+                    (d / sub / nm_).write_text("<svg/>")
+                    paths.append(f"{sub}/{nm_}")
+                lines += [f"[master.m{m}]", 'style_name = "S%d"' % m, "srcs = [" + ", ".join('"%s"' % p_ for p_ in paths) + "]",
+                          f"[master.m{m}.position]", f"wght = {400 + 100 * m}"]
+            (d / "c.toml").write_text("\n".join(lines) + "\n")
+            try:
+                nconfig.load(d / "c.toml")
+                real = True
+            except (ValueError, NameError) as e:
+                real = False
+            except Exception as e:  # noqa
+                real = type(e).__name__
+            ops.append({"op": "masters-ok", "masters": masters})
+            reals.append(real)
+            metas.append(masters)
+    finally:
+        shutil.rmtree(tmp, ignore_errors=True)
+    for masters, real, m in zip(metas, reals, ctx.driver.run(ops)):
+        res.count(key=("masters", stable_hash(masters)), nontrivial=len(masters) >= 2)
+        res.stat("masters:" + ("accepted" if real is True else "rejected" if real is False else "other"))
+        if m.get("ok") != real:
+            res.add_tie_break("config.load master source-name checks vs Model mastersOk", {"masters": masters}, m, real)
+            if real is True and len(masters) >= 2:
+                res.add_cex("config.load accepts masters that do not carry the same drawings (one master's drawing would be dropped or left without a counterpart)",
+                            {"masters": masters}, {"site": "c17-masters", "masters": stable_hash(masters)})
+
+
 def suite(ctx, res, rounds):
     jobs = []
     for r in range(rounds):
@@ -178,10 +258,13 @@ def run(ctx, res):
     res.rule = ("one CLI invocation per defect class (8 classes) x rounds, defect at a random position among 2-4 valid sources, format chosen per class; "
                 "first round also runs the defect-free control; every invocation non-trivial")
     suite_accept_model(ctx, res, ctx.budget(60, 1200))
+    suite_masters_model(ctx, res, ctx.budget(80, 1500))
     suite(ctx, res, ctx.budget(1, 6))
 
 
 def search(ctx, res, broken):
+    nano.init()
+    suite_masters_model(ctx, res, 600)
     suite(ctx, res, 3)
 
 
